@@ -437,11 +437,17 @@ class HttpParser(abc.ABC, Generic[_MsgT]):
                         if SEC_WEBSOCKET_KEY1 in msg.headers:
                             raise InvalidHeader(SEC_WEBSOCKET_KEY1)
 
-                        upgraded = msg.upgrade and _is_supported_upgrade(msg.headers)
-
                         method = getattr(msg, "method", self.method)
                         # code is only present on responses
                         code = getattr(msg, "code", 0)
+
+                        # Only a 101 response switches protocols; any other
+                        # status carrying Upgrade merely advertises them.
+                        upgraded = (
+                            msg.upgrade
+                            and code in (0, 101)
+                            and _is_supported_upgrade(msg.headers)
+                        )
 
                         assert self.protocol is not None
                         # calculate payload
